@@ -7,6 +7,7 @@ import (
 	"flag"
 	"fmt"
 	"os"
+	"time"
 
 	"verif/harness/drive"
 )
@@ -29,7 +30,55 @@ func main() {
 	}
 }
 
-var extra = map[string]func([]string){}
+var extra = map[string]func([]string){"conc": concCmd, "gate": gateCmd}
+
+func gateCmd(args []string) {
+	fs := flag.NewFlagSet("gate", flag.ExitOnError)
+	scf := fs.String("scenarios", "", "JSON file with a list of gate scenarios")
+	out := fs.String("out", "gate.ndjson", "output trace")
+	_ = fs.Parse(args)
+	b, err := os.ReadFile(*scf)
+	if err != nil {
+		fatal(err)
+	}
+	var scs []drive.GateScenario
+	if err := json.Unmarshal(b, &scs); err != nil {
+		fatal(err)
+	}
+	f, err := os.Create(*out)
+	if err != nil {
+		fatal(err)
+	}
+	bw := bufio.NewWriterSize(f, 1<<20)
+	r := &drive.Runner{Enc: json.NewEncoder(bw), Teardown: true}
+	for i := range scs {
+		if err := drive.RunGateScenario(&scs[i], r); err != nil {
+			fatal(err)
+		}
+	}
+	if err := bw.Flush(); err != nil {
+		fatal(err)
+	}
+	f.Close()
+	fmt.Printf("{\"traces\":%d,\"steps\":%d}\n", r.Traces, r.Steps)
+}
+
+func concCmd(args []string) {
+	fs := flag.NewFlagSet("conc", flag.ExitOnError)
+	profile := fs.String("profile", "core", "workload profile")
+	seed := fs.Int64("seed", 1, "seed")
+	ms := fs.Int("ms", 1500, "duration of the input phase in milliseconds")
+	workers := fs.Int("workers", 4, "request streams")
+	out := fs.String("out", "conc.ndjson", "output (reset line + final line); lock edges in <out>.locks.json")
+	locks := fs.Bool("locks", false, "record lock acquisition edges (slow)")
+	_ = fs.Parse(args)
+	res, err := drive.RunConcurrent(*profile, *seed, time.Duration(*ms)*time.Millisecond, *workers, *out, *locks)
+	if err != nil {
+		fatal(err)
+	}
+	b, _ := json.Marshal(res)
+	fmt.Println(string(b))
+}
 
 func driveCmd(args []string) {
 	fs := flag.NewFlagSet("drive", flag.ExitOnError)
